@@ -400,3 +400,74 @@ Proof.
   unfold c_sides, bbox_sides, sides_num.
   repeat constructor; rewrite map_length; rewrite ?idx_list_length, ?idx_list_desc_rev, ?rev_length, ?idx_list_length; assumption.
 Qed.
+
+(* ------------------------------------------------------------------ the ring of pixel indices encloses the whole grid *)
+Lemma ring_area2_sides (S : list (list pix)) :
+  closed4 S -> Forall (fun s => (2 <= length s)%nat) S ->
+  ring_area2 (contour S) = fold_right (fun s acc => path_area2 s + acc) 0 S.
+Proof.
+  destruct S as [|a [|b [|c [|d [|e r]]]]]; cbn [closed4]; try tauto.
+  intros (H1 & H2 & H3 & H4 & _) HF.
+  inversion HF as [|? ? La HF1]; subst. inversion HF1 as [|? ? Lb HF2]; subst.
+  inversion HF2 as [|? ? Lc HF3]; subst. inversion HF3 as [|? ? Ld _]; subst.
+  destruct (two_ends a La) as (xa & ma & ya & ->). destruct (two_ends b Lb) as (xb & mb & yb & ->).
+  destruct (two_ends c Lc) as (xc & mc & yc & ->). destruct (two_ends d Ld) as (xd & md & yd & ->).
+  rewrite !last_opt_cons_app in *. cbn [hd_error] in *.
+  inversion H1; inversion H2; inversion H3; inversion H4; subst.
+  unfold contour. cbn [map concat fold_right]. rewrite !removelast_ends, app_nil_r.
+  unfold ring_area2. cbn [app].
+  change (xa :: (ma ++ xb :: mb ++ xc :: mc ++ xd :: md) ++ [xa])
+    with ((xa :: ma ++ xb :: mb ++ xc :: mc ++ xd :: md) ++ [xa]).
+  replace ((xa :: ma ++ xb :: mb ++ xc :: mc ++ xd :: md) ++ [xa])
+    with ((xa :: ma) ++ xb :: (mb ++ xc :: (mc ++ xd :: (md ++ [xa])))).
+  2:{ cbn [app]. f_equal. repeat (rewrite <- app_assoc; cbn [app]). reflexivity. }
+  rewrite path_area2_app. cbn [app].
+  change (xb :: mb ++ xc :: mc ++ xd :: md ++ [xa]) with ((xb :: mb) ++ xc :: (mc ++ xd :: (md ++ [xa]))).
+  rewrite path_area2_app. cbn [app].
+  change (xc :: mc ++ xd :: md ++ [xa]) with ((xc :: mc) ++ xd :: (md ++ [xa])).
+  rewrite path_area2_app. cbn [app]. lia.
+Qed.
+
+Lemma path_row k a m b : path_area2 (map (fun c => (k, c)) (a :: m ++ [b])) = k * (b - a).
+Proof.
+  revert a. induction m as [|x m IH]; intros a.
+  - cbn. unfold cross2. cbn. lia.
+  - cbn [app map]. rewrite path_area2_cons2. cbn [app map] in IH. rewrite IH. unfold cross2. cbn. lia.
+Qed.
+
+Lemma path_col k a m b : path_area2 (map (fun r => (r, k)) (a :: m ++ [b])) = - k * (b - a).
+Proof.
+  revert a. induction m as [|x m IH]; intros a.
+  - cbn. unfold cross2. cbn. lia.
+  - cbn [app map]. rewrite path_area2_cons2. cbn [app map] in IH. rewrite IH. unfold cross2. cbn. lia.
+Qed.
+
+Lemma ends_of {A} (l : list A) a b : (2 <= length l)%nat -> hd_error l = Some a -> last_opt l = Some b ->
+  exists m, l = a :: m ++ [b].
+Proof.
+  intros Hl Hh Hb. destruct (two_ends l Hl) as (x & m & y & ->).
+  rewrite last_opt_cons_app in Hb. cbn in Hh. inversion Hh; inversion Hb; subst. exists m. reflexivity.
+Qed.
+
+Lemma idx_list_desc_length n m : length (idx_list_desc n m) = m.
+Proof. rewrite idx_list_desc_rev, rev_length. apply idx_list_length. Qed.
+
+Theorem ring_encloses_grid h w vps : 2 <= h -> 2 <= w -> vps_ok vps ->
+  ring_area2 (contour (c_sides h w vps)) = - 2 * (h - 1) * (w - 1).
+Proof.
+  intros Hh Hw Hv.
+  pose proof (ring_closed h w vps Hh Hw Hv) as [Hc _].
+  pose proof (sides_len2 h w vps Hh Hw Hv) as Hl.
+  rewrite (ring_area2_sides _ Hc Hl).
+  pose proof (num_of_ge2 vps h Hh Hv) as Hrn. pose proof (num_of_ge2 vps w Hw Hv) as Hcn.
+  unfold c_sides, bbox_sides, sides_num. cbn [fold_right].
+  destruct (ends_of (idx_list w (num_of vps w)) 0 (w - 1)) as [m1 E1];
+    [rewrite idx_list_length; exact Hcn|apply idx_list_hd; exact Hcn|apply idx_list_last; exact Hcn|].
+  destruct (ends_of (idx_list h (num_of vps h)) 0 (h - 1)) as [m2 E2];
+    [rewrite idx_list_length; exact Hrn|apply idx_list_hd; exact Hrn|apply idx_list_last; exact Hrn|].
+  destruct (ends_of (idx_list_desc w (num_of vps w)) (w - 1) 0) as [m3 E3];
+    [rewrite idx_list_desc_length; exact Hcn|apply idx_list_desc_hd; exact Hcn|apply idx_list_desc_last; exact Hcn|].
+  destruct (ends_of (idx_list_desc h (num_of vps h)) (h - 1) 0) as [m4 E4];
+    [rewrite idx_list_desc_length; exact Hrn|apply idx_list_desc_hd; exact Hrn|apply idx_list_desc_last; exact Hrn|].
+  rewrite E1, E2, E3, E4. rewrite !path_row, !path_col. lia.
+Qed.
